@@ -26,6 +26,10 @@ ASSUMPTIONS = ["float64 arithmetic modelled as exact real arithmetic",
 ITEM_TIMEOUT = {"quick": 150, "thorough": 900}
 
 
+def VIEWS_LAYOUT_ITEMS(it, tier):
+    return it["id"] != "activeset-n3-both"      # (two minutes on its own)
+
+
 def items(tier):
     b = BOUNDS[tier]
     out = []
